@@ -54,7 +54,58 @@ def drive_images(rng, n):
                 pass
 
 
-DRIVERS = {"images": drive_images}
+def drive_forest(rng, n):
+    """Random forests over a larger pool than TLC enumerates: 6 ids, depth <= 3, valid and invalid adds, write/read cycles."""
+    from .forest_adapter import new_ci
+    from productmd.composeinfo import Variant, ComposeInfo
+    ids = ["Server", "Client", "optional", "HA", "Tools", "A1"]
+    arches = ["x86_64", "ppc64le", "s390x"]
+    types = ["variant", "optional", "addon", "layered-product"]
+    for t in range(n):
+        ci = new_ci()
+        filed = []
+
+        def mk(parent):
+            v = Variant(ci)
+            v.id = rng.choice(ids)
+            good_uid = v.id if parent is None else "%s-%s" % (parent.uid, v.id)
+            r = rng.random()
+            v.uid = good_uid if r < 0.8 else (good_uid + "x" if r < 0.9 else rng.choice(ids))
+            v.name = "n " + v.uid
+            v.type = rng.choice(types)
+            pa = sorted(parent.arches) if parent is not None else arches
+            k = rng.randint(1, len(pa))
+            v.arches = set(rng.sample(pa, k)) if rng.random() < 0.85 else set(rng.sample(arches, rng.randint(1, 3)))
+            if v.type == "layered-product":
+                v.release.name, v.release.short, v.release.version, v.release.type = "L", "L", "1", "ga"
+            return v
+        for step in range(rng.randint(2, 14)):
+            cands = [None] + [v for v in filed if v.uid.count("-") < 2]
+            parent = rng.choice(cands)
+            if filed and rng.random() < 0.12:
+                v = rng.choice(filed)          # re-add a filed variant to its own container / below itself
+                cont = ci.variants if v.parent is None else v.parent
+                if rng.random() < 0.5:
+                    below = [w for w in filed if w is not v and w.uid.startswith(v.uid + "-")]
+                    cont = rng.choice(below) if below else cont
+            else:
+                v = mk(parent)
+                cont = ci.variants if parent is None else parent
+            try:
+                cont.add(v)
+                if v not in filed:
+                    filed.append(v)
+            except ValueError:
+                pass
+        if rng.random() < 0.5:
+            try:
+                c2 = ComposeInfo()
+                c2.loads(ci.dumps())
+            except (ValueError, TypeError):
+                pass
+
+
+DRIVERS = {"images": drive_images, "forest": drive_forest}
 
 if __name__ == "__main__":
     name, seed, n = sys.argv[1], int(sys.argv[2]), int(sys.argv[3])
